@@ -63,6 +63,8 @@ TOL_SUM = 1e-9
 CAUSE_B = "mass-factor-uses-level-of-stiffness-dimension"          # F-C20b
 CAUSE_C = "mass-factor-uses-coordinates-of-stiffness-dimension"    # F-C20c
 CAUSE_D = "touching-supports-treated-as-overlapping-neighbours"    # F-C20d
+CAUSE_G = "neighbour-mass-integral-multiplied-twice"               # F-C20g
+CAUSE_F = "sample-within-rounding-below-node-counted-on-both-sides"  # F-C20f
 
 
 # ----------------------------------------------------------------------------------------------------------------
@@ -73,30 +75,48 @@ def uniform_nodes(level):
     return [j / n for j in range(n + 1)]
 
 
-def hat_matrix_1d(nodes, xs):
-    """B[s, j-1] = value at xs[s] of the hat centred at interior node j (support [nodes[j-1], nodes[j+1]])."""
+def hat_matrix_1d(nodes, xs, side_by_rounded_value=False):
+    """B[s, j-1] = value at xs[s] of the hat centred at interior node j (support [nodes[j-1], nodes[j+1]]).
+
+    side_by_rounded_value=True applies substitution F-C20f: the rising/falling side is not selected by the sign of
+    x - p but by comparing the rounded branch value with 1 (`> 1` on the right, `>= 1` on the left), so a sample within
+    rounding distance below a node keeps both branches (value 1 + (x-l)/(p-l) ~ 2)."""
     xs = np.asarray(xs, dtype=float)
     B = np.zeros((len(xs), len(nodes) - 2))
     for j in range(1, len(nodes) - 1):
         l, p, r = nodes[j - 1], nodes[j], nodes[j + 1]
         for s, x in enumerate(xs):
-            if l < x <= p:
+            if side_by_rounded_value:
+                v1 = 1.0 - (x - p) / (r - p)
+                v2 = 1.0 - (p - x) / (p - l)
+                B[s, j - 1] = (v1 if 0 <= v1 <= 1 else 0.0) + (v2 if 0 <= v2 < 1 else 0.0)
+            elif l < x <= p:
                 B[s, j - 1] = (x - l) / (p - l)
             elif p < x < r:
                 B[s, j - 1] = (r - x) / (r - p)
     return B
 
 
-def design_matrix(node_lists, points):
+def design_matrix(node_lists, points, side_by_rounded_value=False):
     points = np.asarray(points, dtype=float)
     A = np.ones((len(points), 1))
     for k, nodes in enumerate(node_lists):
-        B = hat_matrix_1d(nodes, points[:, k])
+        B = hat_matrix_1d(nodes, points[:, k], side_by_rounded_value)
         A = (A[:, :, None] * B[:, None, :]).reshape(len(points), -1)
     return A
 
 
-def mass_1d(nodes, touching=False):
+def design_candidates(kind, node_lists, points):
+    ref = design_matrix(node_lists, points)
+    res = [((), ref)]
+    if kind == "dimwise":
+        sub = design_matrix(node_lists, points, side_by_rounded_value=True)
+        if float(np.max(np.abs(sub - ref), initial=0.0)) > TOL_A:
+            res.append(((CAUSE_F,), sub))
+    return res
+
+
+def mass_1d(nodes, touching=False, squared=False):
     n = len(nodes) - 2
     M = np.zeros((n, n))
     for j in range(1, n + 1):
@@ -105,6 +125,9 @@ def mass_1d(nodes, touching=False):
             M[j - 1, j] = M[j, j - 1] = (nodes[j + 1] - nodes[j]) / 6.0
         if touching and j + 1 < n:      # substitution F-C20d: hats two nodes apart treated as neighbours of width dist
             M[j - 1, j + 1] = M[j + 1, j - 1] = (nodes[j + 2] - nodes[j]) / 6.0
+    if squared:                         # substitution F-C20g: the neighbour integral is multiplied in twice
+        off = ~np.eye(n, dtype=bool)
+        M[off] = M[off] ** 2
     return M
 
 
@@ -127,12 +150,28 @@ def _kron_all(mats):
     return R
 
 
-def gram_reference(node_lists, touching=False):
-    """sum_k kron_m (Stiff_k if m == k else Mass_m); touching=True applies substitution F-C20d to the 1-D matrices."""
+def gram_model(node_lists, coords_of_k=False, touching=False, squared=False):
+    """Gradient Gram matrix sum_k kron_m (Stiff_k if m == k else Mass_m) of the tensor hat basis (all flags False), or
+    the same with named index substitutions applied:
+      touching     (F-C20d) hats whose supports only touch (two nodes apart) are treated as overlapping neighbours;
+      squared      (F-C20g) the mass integral of two neighbouring hats enters twice (squared);
+      coords_of_k  (F-C20c) in term k every mass factor is evaluated with the coordinates of dimension k:
+                   C[i,j] = sum_k Stiff_k[i_k,j_k] * Mass_k[i_k,j_k]^(d-1)."""
     d = len(node_lists)
-    mass = [mass_1d(n, touching) for n in node_lists]
+    mass = [mass_1d(n, touching, squared) for n in node_lists]
     stiff = [stiff_1d(n, touching) for n in node_lists]
-    return sum(_kron_all([stiff[k] if m == k else mass[m] for m in range(d)]) for k in range(d))
+    if not coords_of_k:
+        return sum(_kron_all([stiff[k] if m == k else mass[m] for m in range(d)]) for k in range(d))
+    idx = np.array(list(itertools.product(*[range(len(n) - 2) for n in node_lists])), dtype=int).reshape(-1, d)
+    total = np.zeros((len(idx), len(idx)))
+    for k in range(d):
+        ii = np.ix_(idx[:, k], idx[:, k])
+        total += stiff[k][ii] * mass[k][ii] ** (d - 1)
+    return total
+
+
+def gram_reference(node_lists):
+    return gram_model(node_lists)
 
 
 def gram_uniform_sub_b(levelvec):
@@ -152,29 +191,23 @@ def gram_uniform_sub_b(levelvec):
     return total
 
 
-def gram_dimwise_sub_c(node_lists, touching=False):
-    """Substitution F-C20c: in term k every mass factor is evaluated with the coordinates of dimension k, i.e.
-    C[i,j] = sum_k Stiff_k[i_k,j_k] * Mass_k[i_k,j_k]^(d-1)."""
-    d = len(node_lists)
-    idx = np.array(list(itertools.product(*[range(len(n) - 2) for n in node_lists])), dtype=int).reshape(-1, d)
-    total = np.zeros((len(idx), len(idx)))
-    for k in range(d):
-        S = stiff_1d(node_lists[k], touching)
-        M = mass_1d(node_lists[k], touching)
-        ii = np.ix_(idx[:, k], idx[:, k])
-        total += S[ii] * M[ii] ** (d - 1)
-    return total
-
-
 def gram_candidates(kind, grid):
-    """[(causes, matrix)] ordered by number of substitutions; grid = level vector (uniform) or node lists (dimwise)."""
+    """[(causes, matrix)] ordered by number of substitutions; grid = level vector (uniform) or node lists (dimwise).
+    Candidates equal to an earlier one are dropped, so a cause is only ever named when it is observable on this grid."""
     if kind == "uniform":
         nodes = [uniform_nodes(l) for l in grid]
-        return [((), gram_reference(nodes)), ((CAUSE_B,), gram_uniform_sub_b(grid))]
-    return [((), gram_reference(grid)),
-            ((CAUSE_D,), gram_reference(grid, touching=True)),
-            ((CAUSE_C,), gram_dimwise_sub_c(grid)),
-            ((CAUSE_C, CAUSE_D), gram_dimwise_sub_c(grid, touching=True))]
+        raw = [((), gram_reference(nodes)), ((CAUSE_B,), gram_uniform_sub_b(grid))]
+    else:
+        raw = []
+        for flags in sorted(itertools.product((False, True), repeat=3), key=lambda f: (sum(f), f)):
+            c, t, g = flags
+            causes = tuple(x for x, on in ((CAUSE_C, c), (CAUSE_D, t), (CAUSE_G, g)) if on)
+            raw.append((causes, gram_model(grid, coords_of_k=c, touching=t, squared=g)))
+    res = []
+    for causes, M in raw:
+        if not any(close(M, M2) for _, M2 in res):
+            res.append((causes, M))
+    return res
 
 
 def close(a, b, rel=TOL_MAT):
@@ -250,8 +283,11 @@ def check_gram(out, sub, kind, grid, C, tag):
     return explained
 
 
-def check_solution(out, sub, kind, grid, A_ref, y, alpha, lam, matrix, tag):
-    """alpha satisfies the stated normal equations (reference matrices only)."""
+def check_solution(out, sub, kind, grid, A_cands, y, alpha, lam, matrix, tag):
+    """alpha satisfies the stated normal equations built from the reference design matrix and reference smoothing matrix.
+    On failure the named substitutions are tried (fewest first); the causes of the first combination with which the
+    surpluses do satisfy the equations are reported, otherwise an unexplained residual."""
+    A_ref = A_cands[0][1]
     alpha = np.asarray(alpha, dtype=float)
     if alpha.shape != (A_ref.shape[1],):
         out.bad("%s/surplus/shape" % sub, "%s: surplus vector has shape %s, grid has %d basis functions" % (tag, alpha.shape, A_ref.shape[1]))
@@ -261,46 +297,48 @@ def check_solution(out, sub, kind, grid, A_ref, y, alpha, lam, matrix, tag):
         return
     y = np.asarray(y, dtype=float)
     if lam == 0:
-        res = ne_residual(A_ref, y, alpha, 0, None)
-        out.info["max_ne_residual"] = max(out.info.get("max_ne_residual", 0.0), res)
-        if res > TOL_NE:
-            out.bad("%s/normal-eq/residual-least-squares" % sub, "%s: ||A^T(A alpha - y)|| relative %.3g" % (tag, res))
-        return
-    if matrix == "I":
-        res = ne_residual(A_ref, y, alpha, lam, np.eye(A_ref.shape[1]))
-        out.info["max_ne_residual"] = max(out.info.get("max_ne_residual", 0.0), res)
-        if res > TOL_NE:
-            out.bad("%s/normal-eq/residual-identity" % sub, "%s: lambda=%g relative residual %.3g" % (tag, lam, res))
-        return
-    cands = gram_candidates(kind, grid)
-    res_ref = ne_residual(A_ref, y, alpha, lam, cands[0][1])
-    if res_ref <= TOL_NE:
-        out.info["max_ne_residual"] = max(out.info.get("max_ne_residual", 0.0), res_ref)
-        return
-    for causes, M in cands[1:]:
-        if close(M, cands[0][1]):
-            continue
-        res = ne_residual(A_ref, y, alpha, lam, M)
+        clause, M_cands = "residual-least-squares", [((), None)]
+    elif matrix == "I":
+        clause, M_cands = "residual-identity", [((), np.eye(A_ref.shape[1]))]
+    else:
+        clause, M_cands = "residual-gram", gram_candidates(kind, grid)
+    combos = sorted(((ca + cm, A, M) for ca, A in A_cands for cm, M in M_cands), key=lambda t: len(t[0]))
+    res_ref = None
+    for causes, A, M in combos:
+        res = ne_residual(A, y, alpha, lam, M)
+        if res_ref is None:
+            res_ref = res
         if res <= TOL_NE:
+            if not causes:
+                out.info["max_ne_residual"] = max(out.info.get("max_ne_residual", 0.0), res)
             for c in causes:
-                out.bad("%s/normal-eq/%s" % (sub, c), "%s: lambda=%g: residual with the gradient Gram matrix %.3g; the surpluses solve "
-                        "the system with the substituted matrix (%s) to %.3g" % (tag, lam, res_ref, "+".join(causes), res))
+                out.bad("%s/normal-eq/%s" % (sub, c), "%s: lambda=%g matrix=%s: relative residual of the stated normal equations %.3g; "
+                        "the surpluses solve the system with the substitution(s) %s applied (residual %.3g)"
+                        % (tag, lam, matrix, res_ref, "+".join(causes), res))
             return
-    out.bad("%s/normal-eq/residual-gram" % sub, "%s: lambda=%g relative residual %.3g with the gradient Gram matrix; no named "
-            "substitution explains the surpluses" % (tag, lam, res_ref))
+    out.bad("%s/normal-eq/%s" % (sub, clause), "%s: lambda=%g matrix=%s: relative residual %.3g; no named substitution explains the "
+            "surpluses" % (tag, lam, matrix, res_ref))
 
 
-def check_design(out, sub, A, A_ref, tag):
+def check_design(out, sub, A, A_cands, tag):
+    A_ref = A_cands[0][1]
     A = np.asarray(A, dtype=float)
     if A.shape != A_ref.shape:
         out.bad("%s/design-matrix/shape" % sub, "%s: %s, expected %s" % (tag, A.shape, A_ref.shape))
         return
-    dev = float(np.max(np.abs(A - A_ref), initial=0.0))
+    dev = float(np.max(np.abs(A - A_ref), initial=0.0)) if np.all(np.isfinite(A)) else float("inf")
     out.info["max_design_dev"] = max(out.info.get("max_design_dev", 0.0), dev)
-    if not dev <= TOL_A:
-        ij = np.unravel_index(int(np.argmax(np.abs(A - A_ref))), A.shape)
-        out.bad("%s/design-matrix/mismatch" % sub, "%s: max dev %.3g at (sample %d, basis %d): got %.6g, expected %.6g"
-                % (tag, dev, ij[0], ij[1], A[ij], A_ref[ij]))
+    if dev <= TOL_A:
+        return
+    ij = np.unravel_index(int(np.argmax(np.abs(A - A_ref))), A.shape)
+    for causes, Ac in A_cands[1:]:
+        if float(np.max(np.abs(A - Ac), initial=0.0)) <= TOL_A:
+            for c in causes:
+                out.bad("%s/design-matrix/%s" % (sub, c), "%s: max dev %.3g at (sample %d, basis %d): got %.6g, basis value %.6g"
+                        % (tag, dev, ij[0], ij[1], A[ij], A_ref[ij]))
+            return
+    out.bad("%s/design-matrix/mismatch" % sub, "%s: max dev %.3g at (sample %d, basis %d): got %.6g, expected %.6g"
+            % (tag, dev, ij[0], ij[1], A[ij], A_ref[ij]))
 
 
 # ----------------------------------------------------------------------------------------------------------------
@@ -319,16 +357,28 @@ def build_data(case):
     else:   # generic targets: smooth function of the scaled coordinates + seeded noise
         rng = np.random.default_rng(case["rng"])
         w = rng.uniform(0.5, 2.0, size=d)
-        y = np.sin(3.0 * T @ w) + (T ** 2) @ w + 0.3 * rng.standard_normal(len(T)) + 1.0
+        y = np.sin(3.0 * T @ w) + (T ** 2) @ w + 0.3 * np.clip(rng.standard_normal(len(T)), -3, 3) + 2.0
     return X, y
 
 
-def make_regression(X, y, case):
+def make_regression(X, y, case, out, sub):
+    """Regression(data, targets, lambda, matrix) with default arguments (only the chatter levels are raised unless the
+    case says all_defaults).  Returns None when construction fails for the recognised cause F-C20h."""
     from sparseSpACE.GridOperation import Regression
-    with contextlib.redirect_stdout(io.StringIO()):
-        if case.get("all_defaults"):
-            return Regression(X, y, case["lam"], case["matrix"])
-        return Regression(X, y, case["lam"], case["matrix"], print_level=100, log_level=100)
+    try:
+        with contextlib.redirect_stdout(io.StringIO()):
+            if case.get("all_defaults"):
+                return Regression(X, y, case["lam"], case["matrix"])
+            return Regression(X, y, case["lam"], case["matrix"], print_level=100, log_level=100)
+    except ValueError as e:
+        # F-C20h, recognised by cause: DataSet validates the targets as class labels (>= -1)
+        fr = [f for f in traceback.extract_tb(e.__traceback__) if "/sparseSpACE/" in f.filename.replace("\\", "/")]
+        if (str(e).startswith("Invalid raw_data parameter") and fr and fr[-1].name == "_initialize" and np.ndim(y) == 1
+                and len(X) == len(y) and float(np.min(y)) < -1.0):
+            out.bad("%s/construct/target-below-minus-one-rejected-as-class-label" % sub, "min target %r: %s" % (float(np.min(y)), e))
+            out.cls("construction-rejected")
+            return None
+        raise
 
 
 def check_scaling(out, sub, op, X, y):
@@ -371,6 +421,17 @@ def check_pairs(out, sub, op, noisy):
         out.bad("%s/pairs/split-loses-samples" % sub, "%d of %d" % (count, len(op.data)))
 
 
+def _finish(out):
+    """one violation per signature and case (the first message is kept)"""
+    seen, res = set(), []
+    for sig, msg in out.violations:
+        if sig not in seen:
+            seen.add(sig)
+            res.append((sig, msg))
+    out.violations = res
+    return out
+
+
 def nodes_of(case_nodes):
     return [[0.0] + [k / 16.0 for k in ks] + [1.0] for ks in case_nodes]
 
@@ -380,22 +441,25 @@ def run_uniform_direct(case):
     sub = "uniform_direct"
     X, y = build_data(case)
     lv = [int(l) for l in case["lv"]]
-    op = make_regression(X, y, case)
+    op = make_regression(X, y, case, out, sub)
+    if op is None:
+        return _finish(out)
     check_scaling(out, sub, op, X, y)
     # protocol of test_Regression.py: training set := the (scaled) data, numPoints set for the level vector
     op.training_data = op.data
     op.training_target_values = op.target_values
     op.grid.numPoints = 2 ** np.asarray(lv, dtype=int) - 1
     nodes = [uniform_nodes(l) for l in lv]
-    A_ref = design_matrix(nodes, ref_scale(X))
+    A_cands = design_candidates("uniform", nodes, ref_scale(X))
+    A_ref = A_cands[0][1]
     tag = "lv=%s" % lv
     with contextlib.redirect_stdout(io.StringIO()):
         A = op.build_A_matrix(lv)
         C = op.build_C_matrix(lv)
         alpha = op.solve_regression(lv) if case["lam"] == 0 else op.solve_regression_smooth(lv)
-    check_design(out, sub, A, A_ref, tag)
+    check_design(out, sub, A, A_cands, tag)
     causes = check_gram(out, sub, "uniform", lv, C, tag)
-    check_solution(out, sub, "uniform", lv, A_ref, y, alpha, case["lam"], case["matrix"], tag)
+    check_solution(out, sub, "uniform", lv, A_cands, y, alpha, case["lam"], case["matrix"], tag)
     aniso = len(set(lv)) > 1
     out.nontrivial = case["d"] >= 2 and aniso and case["lam"] > 0 and case["matrix"] == "C"
     out.cls("d=%d" % case["d"], "matrix=%s" % case["matrix"], "lambda=0" if case["lam"] == 0 else "lambda>0",
@@ -405,7 +469,7 @@ def run_uniform_direct(case):
     if causes:
         out.cls("gram-known-defect")
     out.info.update(max_basis=A_ref.shape[1], max_dim=case["d"])
-    return out
+    return _finish(out)
 
 
 def run_dimwise_direct(case):
@@ -414,13 +478,16 @@ def run_dimwise_direct(case):
     sub = "dimwise_direct"
     X, y = build_data(case)
     nodes = nodes_of(case["nodes"])
-    op = make_regression(X, y, case)
+    op = make_regression(X, y, case, out, sub)
+    if op is None:
+        return _finish(out)
     check_scaling(out, sub, op, X, y)
     op.training_data = op.data
     op.training_target_values = op.target_values
     levels = [[0] * len(n) for n in nodes]          # the level lists are not read by the three methods
     cg = ComponentGridInfo(tuple(1 for _ in nodes), 1)
-    A_ref = design_matrix(nodes, ref_scale(X))
+    A_cands = design_candidates("dimwise", nodes, np.asarray(op.data, dtype=float))
+    A_ref = A_cands[0][1]
     tag = "nodes=%s" % [[round(v, 4) for v in n] for n in nodes]
     with contextlib.redirect_stdout(io.StringIO()):
         A = op.build_A_matrix_dimension_wise(nodes, levels)
@@ -429,9 +496,9 @@ def run_dimwise_direct(case):
             alpha = op.solve_regression_dimension_wise(nodes, levels, cg)
         else:
             alpha = op.solve_regression_dimension_wise_smooth(nodes, levels, cg)
-    check_design(out, sub, A, A_ref, tag)
+    check_design(out, sub, A, A_cands, tag)
     causes = check_gram(out, sub, "dimwise", nodes, C, tag)
-    check_solution(out, sub, "dimwise", nodes, A_ref, y, alpha, case["lam"], case["matrix"], tag)
+    check_solution(out, sub, "dimwise", nodes, A_cands, y, alpha, case["lam"], case["matrix"], tag)
     aniso = len(set(tuple(n) for n in nodes)) > 1
     nonuni = any(len(set(np.round(np.diff(n), 12))) > 1 for n in nodes)
     out.nontrivial = case["d"] >= 2 and aniso and nonuni and case["lam"] > 0 and case["matrix"] == "C"
@@ -442,14 +509,16 @@ def run_dimwise_direct(case):
     if causes:
         out.cls("gram-known-defect")
     out.info.update(max_basis=A_ref.shape[1], max_dim=case["d"])
-    return out
+    return _finish(out)
 
 
 def run_train(case):
     out = Outcome()
     sub = "train"
     X, y = build_data(case)
-    op = make_regression(X, y, case)
+    op = make_regression(X, y, case, out, sub)
+    if op is None:
+        return _finish(out)
     ok = check_scaling(out, sub, op, X, y)
     with contextlib.redirect_stdout(io.StringIO()):
         combi = op.train(case["pct"], case["lmin"], case["lmax"], bool(case["noisy"]))
@@ -468,18 +537,19 @@ def run_train(case):
             out.bad("%s/surplus/missing" % sub, tag)
             continue
         nodes = [uniform_nodes(l) for l in lv]
-        A_ref = design_matrix(nodes, Xt)
+        A_cands = design_candidates("uniform", nodes, Xt)
+        A_ref = A_cands[0][1]
         nb = max(nb, A_ref.shape[1])
         op.grid.numPoints = 2 ** np.asarray(lv, dtype=int) - 1
         with contextlib.redirect_stdout(io.StringIO()):
             A = op.build_A_matrix(lv)
-        check_design(out, sub, A, A_ref, tag)
-        check_solution(out, sub, "uniform", lv, A_ref, yt, op.surpluses[key], case["lam"], case["matrix"], tag)
+        check_design(out, sub, A, A_cands, tag)
+        check_solution(out, sub, "uniform", lv, A_cands, yt, op.surpluses[key], case["lam"], case["matrix"], tag)
     out.nontrivial = case["d"] >= 2 and aniso and case["lam"] > 0 and case["matrix"] == "C"
     out.cls("d=%d" % case["d"], "matrix=%s" % case["matrix"], "lambda=0" if case["lam"] == 0 else "lambda>0",
             "noisy" if case["noisy"] else "exact-targets", "grids=%d" % min(len(combi.scheme), 6))
     out.info.update(max_basis=nb, max_dim=case["d"], max_grids=len(combi.scheme), max_train=len(yt))
-    return out
+    return _finish(out)
 
 
 def _observe_sa(op, calls):
@@ -499,7 +569,9 @@ def run_train_sa(case):
     out = Outcome()
     sub = "train_sa"
     X, y = build_data(case)
-    op = make_regression(X, y, case)
+    op = make_regression(X, y, case, out, sub)
+    if op is None:
+        return _finish(out)
     ok = check_scaling(out, sub, op, X, y)
     calls = []
     _observe_sa(op, calls)
@@ -526,18 +598,19 @@ def run_train_sa(case):
         if any(n[0] != 0.0 or n[-1] != 1.0 or any(b <= a for a, b in zip(n, n[1:])) or len(n) < 3 for n in nodes):
             out.bad("%s/grid/stripes-not-sorted-with-boundary" % sub, tag)
             continue
-        A_ref = design_matrix(nodes, c["X"])
+        A_cands = design_candidates("dimwise", nodes, c["X"])
+        A_ref = A_cands[0][1]
         nb = max(nb, A_ref.shape[1])
         aniso = aniso or len(set(tuple(n) for n in nodes)) > 1
         nonuni = nonuni or any(len(set(np.round(np.diff(n), 12))) > 1 for n in nodes)
         with contextlib.redirect_stdout(io.StringIO()):
             A = op.build_A_matrix_dimension_wise(nodes, None)
-        check_design(out, sub, A, A_ref, tag)
+        check_design(out, sub, A, A_cands, tag)
         if case["lam"] > 0 and case["matrix"] == "C" and A_ref.shape[1] <= 40:
             with contextlib.redirect_stdout(io.StringIO()):
                 C = op.build_C_matrix_dimension_wise(nodes, None)
             check_gram(out, sub, "dimwise", nodes, C, tag)
-        check_solution(out, sub, "dimwise", nodes, A_ref, c["y"], c["alpha"], case["lam"], case["matrix"], tag)
+        check_solution(out, sub, "dimwise", nodes, A_cands, c["y"], c["alpha"], case["lam"], case["matrix"], tag)
     for lv in final:
         if lv not in op.surpluses:
             out.bad("%s/surplus/missing" % sub, "lv=%s" % (lv,))
@@ -545,7 +618,7 @@ def run_train_sa(case):
     out.cls("d=%d" % case["d"], "matrix=%s" % case["matrix"], "lambda=0" if case["lam"] == 0 else "lambda>0",
             "non-uniform-grid" if nonuni else "uniform-grids-only")
     out.info.update(max_basis=nb, max_dim=case["d"], max_calls=len(calls), max_distinct_grids=len(seen))
-    return out
+    return _finish(out)
 
 
 OPTICOM_CRASH_SITES = {"optimize_coefficients_minimize_whole_error", "build_matrix_opticom",
@@ -556,7 +629,9 @@ def run_opticom(case):
     out = Outcome()
     sub = "opticom"
     X, y = build_data(case)
-    op = make_regression(X, y, case)
+    op = make_regression(X, y, case, out, sub)
+    if op is None:
+        return _finish(out)
     with contextlib.redirect_stdout(io.StringIO()):
         if case["sa"]:
             combi = op.train_spatially_adaptive(case["pct"], case["margin"], case["tol"], case["maxev"], False, False)
@@ -597,7 +672,7 @@ def run_opticom(case):
     out.nontrivial = case["d"] >= 2 and len(combi.scheme) >= 3 and applied >= 2
     out.cls("d=%d" % case["d"], "sa" if case["sa"] else "standard", "lambda=0" if case["lam"] == 0 else "lambda>0")
     out.info.update(max_grids=len(combi.scheme), max_dim=case["d"])
-    return out
+    return _finish(out)
 
 
 # ----------------------------------------------------------------------------------------------------------------
@@ -617,7 +692,9 @@ def _data(draw, d, nmin=5, nmax=40, targets=True):
     aff = [[draw(st.sampled_from([0.0, -1.0, 2.5, 10.0])), draw(st.sampled_from([1.0, 0.5, 4.0, 100.0]))] for _ in range(d)]
     res = dict(d=d, pts=pts, aff=aff, pin=draw(st.booleans()))
     if targets:
-        res["y"] = [draw(st.one_of(st.integers(-8, 8).map(lambda v: v / 4.0), st.integers(-10 ** 5, 10 ** 5).map(lambda v: v / 1e4)))
+        # one case in six has targets below -1 (rejected at construction, F-C20h); the callers only use targets >= 0
+        lo = draw(st.sampled_from([-4, -4, -4, -4, -4, -40]))
+        res["y"] = [draw(st.one_of(st.integers(lo, 32).map(lambda v: v / 4.0), st.integers(lo * 2500, 10 ** 5).map(lambda v: v / 1e4)))
                     for _ in range(n)]
     return res
 
@@ -791,15 +868,15 @@ def selftest():
     M = gram_reference(nodes)
     alpha = np.linalg.solve(A.T @ A / 20 + 0.1 * M, A.T @ ys / 20)
     o = Outcome()
-    check_solution(o, "t", "uniform", [2, 1], A, ys, alpha, 0.1, "C", "selftest")
+    check_solution(o, "t", "uniform", [2, 1], [((), A)], ys, alpha, 0.1, "C", "selftest")
     check_gram(o, "t", "uniform", [2, 1], M, "selftest")
-    check_design(o, "t", A, A, "selftest")
+    check_design(o, "t", A, [((), A)], "selftest")
     assert not o.violations, o.violations
     o = Outcome()
-    check_solution(o, "t", "uniform", [2, 1], A, ys, np.linalg.solve(A.T @ A / 20 + 0.1 * M, A.T @ ys), 0.1, "C", "selftest")
+    check_solution(o, "t", "uniform", [2, 1], [((), A)], ys, np.linalg.solve(A.T @ A / 20 + 0.1 * M, A.T @ ys), 0.1, "C", "selftest")
     assert [s for s, _ in o.violations] == ["t/normal-eq/residual-gram"], o.violations
     o = Outcome()
-    check_solution(o, "t", "uniform", [2, 1], A, ys, np.linalg.solve(A.T @ A / 20 + 0.1 * gram_uniform_sub_b([2, 1]), A.T @ ys / 20),
+    check_solution(o, "t", "uniform", [2, 1], [((), A)], ys, np.linalg.solve(A.T @ A / 20 + 0.1 * gram_uniform_sub_b([2, 1]), A.T @ ys / 20),
                    0.1, "C", "selftest")
     assert [s for s, _ in o.violations] == ["t/normal-eq/" + CAUSE_B], o.violations
     o = Outcome()
@@ -808,10 +885,10 @@ def selftest():
     check_gram(o, "t", "uniform", [2, 1], Mbad, "selftest")
     assert {s for s, _ in o.violations} == {"t/gram/mismatch", "t/gram/not-symmetric"}, o.violations
     o = Outcome()
-    check_gram(o, "t", "dimwise", [n4], stiff_1d(n4, touching=True), "selftest")
+    check_gram(o, "t", "dimwise", [n4], gram_model([n4], touching=True), "selftest")
     assert [s for s, _ in o.violations] == ["t/gram/" + CAUSE_D], o.violations
     o = Outcome()
-    check_design(o, "t", A.T.copy().reshape(A.shape), A, "selftest")
+    check_design(o, "t", A.T.copy().reshape(A.shape), [((), A)], "selftest")
     assert o.violations
     assert np.allclose(ref_scale([[0.0, 5.0], [2.0, 5.0], [1.0, 5.0]]), [[0.05, 0.05], [0.95, 0.05], [0.5, 0.05]])
 
